@@ -218,6 +218,13 @@ where
         &self.inner.1
     }
 
+    /// Verification observer (cfg `gdsl_verif` only): number of half-edges this
+    /// node created itself, i.e. where `iter()` switches from own to received ones.
+    #[cfg(gdsl_verif)]
+    pub fn verif_outbound_len(&self) -> usize {
+        self.inner.2.borrow().len_outbound()
+    }
+
     /// Returns the degree of the node. The degree is the number of
     /// adjacent edges.
     ///
